@@ -264,6 +264,12 @@ def execute(case):
                     v['signature'] = 'reported-without-meeting-tolerance'
                     viol.append(v)
                     nontrivial = True
+                elif v['kind'] == 'nonfinite-reported':
+                    # a diverged (overflowed) period handed back as solved: the loudest failure there is, silenced
+                    v['kind'] = 'diverged-reported-as-solved'
+                    v['signature'] = 'diverged-reported-as-solved'
+                    viol.append(v)
+                    nontrivial = True
         # sweep bound also on success
         cap = case['knobs'].get('cap')
         cap = 400 if cap is None else cap
